@@ -68,6 +68,8 @@ class File:
         self.consts = {}     # name -> (type tokens, expr tokens)
         self.structs = {}    # name -> [(field, type tokens)]  (tuple structs: fields "0", "1", …)
         self.impls = []      # (trait or None, type name, {fn name: Fn}, {assoc const/type name: tokens})
+        self.impl_types = [] # parallel to impls: {associated type name: type tokens}
+        self.types = {}      # `type X = …;` aliases: name -> type tokens
         self.fns = {}
 
 def skip_attrs(toks, i):
@@ -159,7 +161,12 @@ def parse_fn(toks, i):
     ret = None
     if toks[j][1] == "->":
         k = j + 1
-        while toks[k][1] not in ("{", "where", ";"):
+        depth = 0
+        while not (depth == 0 and toks[k][1] in ("{", "where", ";")):
+            if toks[k][0] == "p" and toks[k][1] in ("[", "("):
+                depth += 1
+            elif toks[k][0] == "p" and toks[k][1] in ("]", ")"):
+                depth -= 1
             k += 1
         ret = toks[j + 1:k]
         j = k
@@ -190,12 +197,17 @@ def parse_items(toks, f=None):
             f.macros[name] = arms
         elif t in ("use", "extern", "type"):
             depth = 0
+            start = i
             while not (toks[i][1] == ";" and depth == 0):
                 if toks[i][0] == "p" and toks[i][1] in OPEN:
                     depth += 1
                 elif toks[i][0] == "p" and toks[i][1] in (")", "]", "}"):
                     depth -= 1
                 i += 1
+            if t == "type" and toks[start + 1][0] == "id":
+                eq = next((k for k in range(start, i) if toks[k][1] == "="), None)
+                if eq is not None and eq == start + 2:
+                    f.types[toks[start + 1][1]] = toks[eq + 1:i]
             i += 1
         elif t == "mod":
             if toks[i + 2][1] == ";":
@@ -207,9 +219,12 @@ def parse_items(toks, f=None):
                 fn, i = parse_fn(toks, i + 1)
                 f.fns[fn.name] = fn
                 continue
+            if toks[i + 1][1] == "mut":       # `static mut X: T = e;`
+                i += 1
             name = toks[i + 1][1]
             j = i + 2
-            assert toks[j][1] == ":"
+            if toks[j][1] != ":":
+                raise Unsupported(f"const/static item {name}")
             k = j + 1
             while toks[k][1] != "=":
                 k += 1
@@ -290,6 +305,7 @@ def parse_items(toks, f=None):
             c = match_close(toks, j)
             inner = parse_items(toks[j + 1:c])
             f.impls.append((trait, ty, inner.fns, inner.consts))
+            f.impl_types.append(inner.types)
             i = c + 1
         elif t == "fn":
             fn, i = parse_fn(toks, i)
@@ -468,6 +484,10 @@ class Parser:
                 self.eat(); continue
             if self.peek() == "#":
                 j = skip_attrs(self.t, self.i)
+                names = {self.t[k + 2][1] for k in range(self.i, j) if self.t[k][1] == "#" and k + 2 < j and self.t[k + 1][1] == "["}
+                if names & {"cfg", "cfg_attr"}:
+                    # conditional compilation inside a function body: which statements exist depends on the build configuration
+                    raise Unsupported("#[cfg] on a statement")
                 self.i = j
                 continue
             s = self.parse_stmt()
@@ -609,6 +629,8 @@ class Parser:
         if p == "{":
             stmts, tail = self.parse_braced()
             return ("exprnosemi", ("block", stmts, tail))
+        if p == "unsafe" and self.peek(1) == "{":
+            return ("exprnosemi", self.parse_primary(False))
         e = self.parse_expr()
         q = self.peek()
         if q in ASSIGN_OPS:
@@ -786,7 +808,14 @@ class Parser:
         if p == "match":
             raise Unsupported("match expression")
         if p == "unsafe":
-            raise Unsupported("unsafe block")
+            # kept as an opaque token list: the translator maps one exact idiom (rs2lean.FnTr.unsafe_fill) and rejects the rest
+            self.eat()
+            if self.peek() != "{":
+                raise Unsupported("unsafe item")
+            c = match_close(self.t, self.i)
+            toks = self.t[self.i + 1:c]
+            self.i = c + 1
+            return ("unsafe", toks)
         if k == "str" or k == "char":
             self.eat()
             return ("str", p)
